@@ -435,6 +435,37 @@ plan('C03', jobs=_c03,
      design_ref='DESIGN.md section 3, C03')
 
 
+def _c17(tier):
+    caps = ' --caps 0,1,2,3,4,8' + (',16' if tier == 'thorough' else '')
+    jobs = [
+        J('C17', 'dbg/track', 'dbg', 'eng_liar', '--fam track' + caps, 6, q(tier, 150_000, 6_000_000)),
+        J('C17', 'rel/track', 'rel', 'eng_liar', '--fam track' + caps, 6, q(tier, 400_000, 20_000_000)),
+        J('C17', 'dbg/heap', 'dbg', 'eng_liar', '--fam heap' + caps, 2, q(tier, 100_000, 3_000_000)),
+        J('C17', 'rel/heap', 'rel', 'eng_liar', '--fam heap' + caps, 2, q(tier, 300_000, 10_000_000)),
+        J('C17', 'miri/track', 'miri', 'eng_liar', '--fam track,heap --caps 0,1,2,3,4 --max-steps 40', 8, q(tier, 350, 4000), light=True, timeout=q(tier, 1500, 7200)),
+        J('C17', 'mirirel/track', 'mirirel', 'eng_liar', '--fam track,heap --caps 0,1,2,3,4 --max-steps 40', 8, q(tier, 350, 4000), light=True, timeout=q(tier, 1500, 7200)),
+    ]
+    if tier == 'thorough':
+        jobs += [
+            J('C17', 'asan/heap', 'asan', 'eng_liar', '--fam heap,track' + caps, 8, 5_000_000),
+            J('C17', 'vg/heap', 'vg', 'eng_liar', '--fam heap --caps 0,1,2,3,4,8', 8, 200_000, light=True, timeout=7200),
+        ]
+    return jobs
+
+
+plan('C17', jobs=_c17,
+     rule='Cases are steps of random histories over a Map and two Sets of the same capacity whose key type answers == under an adversary chosen per history: truthful, lying with probability 1/4 or 1/32 per call, always true, always false, non-reflexive, asymmetric (depends on operand identity), flip-flop; in a fifth of the histories Borrow additionally points at a different field than == uses. 30 operation kinds: every inserting, removing, looking-up, retaining, draining, entry, get_disjoint_mut (J = 2, 3, 6), clone/eq, consuming-iterator, collect, formatting, Set, set-algebra and `-` operation. Capacities {0,1,2,3,4,8} (thorough adds 16). Only safety is judged. Distinct by (N, adversary, operation, key, container slot order).',
+     required=['insert:returned', 'remove(q):returned', 'retain:returned', 'get_disjoint_mut(2):returned', 'get_disjoint_mut(3):returned', 'get_disjoint_mut(6):', 'get_disjoint_mut(2):panicked',
+               'entry.occupied-ops:returned', 'set.algebra:returned', 'set.sub+predicates:', 'from_iter:', 'clone+eq:returned', 'into_iter(clone):returned', 'set.extend:'],
+     floors={'comparisons_answered_untruthfully': 1000},
+     assumptions=NATIVE_ASSUME + SAN_ASSUME + ['no user panic is injected in this engine, so exactly-once destruction is demanded in full; panics raised by the container itself are accepted outcomes'],
+     title='misbehaving Eq / Borrow',
+     technique='runtime monitoring: safety-only monitors (ownership ledger with model-free conservation, len vs iteration, pairwise address distinctness of get_disjoint_mut results used together, canary frame) under an adversary that drives every key comparison; Miri in both profiles, ASan/valgrind with heap-owning keys',
+     level_text='Exploration: random histories under adversarial comparison outcomes; wrong answers, duplicate keys and panics are accepted, but the ledger must see every object destroyed exactly once and never used while dead, len() must stay within capacity() and equal what iteration yields, references handed out together must not alias, and canaries must stay intact. The same driver runs under Miri (dev profile and debug-assertions-off profile, where an out-of-bounds unchecked access is reported as UB rather than as an abort) in the quick tier, and with heap-owning keys under ASan and valgrind in the thorough tier.',
+     level_note='No reference model: answers are not judged. The adversary is random, not exhaustive.',
+     design_ref='DESIGN.md section 3, C17')
+
+
 def claimed():
     return sorted(PLANS)
 
